@@ -118,7 +118,8 @@ def c14_extra(pid, tier, seed):
                     lines.append(dirq_line(segs, ro, qs, (si, newlog)))
                     meta.append(dict(kind=kind, seg=si, ro=ro, qs=qs, published=published, segs=segs,
                                      dmg_offs=None if dmg is None else [int(s['msgs'][i].split('|')[0]) for i in dmg]))
-    # reference answers: undamaged, and with the damaged file zeroed (independence test)
+    # reference answers: undamaged, and with the damaged file zero-filled and 0xAA-filled (independence test: a call is
+    # answered entirely from other files when neither replacement changes its answer)
     ref_lines, ref_idx = [], {}
     for segs in logs:
         qs = queries_for(segs, rng)
@@ -128,6 +129,10 @@ def c14_extra(pid, tier, seed):
             for si, s in enumerate(segs):
                 ref_idx[(id(segs), ro, si)] = len(ref_lines)
                 ref_lines.append(dirq_line(segs, ro, qs, (si, '00' * recov.hexlen(s['log']))))
+                # a zero-filled file is a well-formed V1 log of all-zero records, so a call that reads it may still
+                # answer as before; a file of 0xAA bytes cannot even be opened
+                ref_idx[(id(segs), ro, si, 'aa')] = len(ref_lines)
+                ref_lines.append(dirq_line(segs, ro, qs, (si, 'aa' * recov.hexlen(s['log']))))
     ref = recov.model_lines(ref_lines, 'c14ref')
     res = codec.run_codec(lines, 'c14-' + pid)
     byop = {op: (impl, model) for op, impl, model in res}
@@ -138,10 +143,11 @@ def c14_extra(pid, tier, seed):
             mism.append((line, impl, model, m))
         orig = ref[ref_idx[(id(m['segs']), m['ro'], 'orig')]].split(' ; ')
         zero = ref[ref_idx[(id(m['segs']), m['ro'], m['seg'])]].split(' ; ')
+        junk = ref[ref_idx[(id(m['segs']), m['ro'], m['seg'], 'aa')]].split(' ; ')
         if impl.startswith('openerr'):
             continue
         got = impl.split(' ; ')
-        for q, g, o, z in zip(m['qs'], got, orig, zero):
+        for q, g, o, z, a in zip(m['qs'], got, orig, zero, junk):
             nq += 1
             bad = None
             if g == 'err Panic':
@@ -157,7 +163,7 @@ def c14_extra(pid, tier, seed):
                         nmust_err += 1
                         if not g.startswith('err'):
                             bad = 'answer_includes_overwritten_record_but_no_error'
-                if not bad and o == z and o.startswith('ok'):
+                if not bad and o == z and o == a and o.startswith('ok'):
                     nindep += 1
                     if g != o:
                         bad = 'call_answered_from_other_files_changed'
